@@ -338,7 +338,17 @@ class Evaluator:
                 x = to_obj(invals[0])
                 if all(getattr(e, "is_integer", False) or e in (sp.true, sp.false) for e in x.ravel()):
                     return x
-                raise symx.EngineLimit("cast of a symbolic real to an integer/boolean dtype")
+
+                def b2i(e):
+                    # a symbolic predicate (comparison of symbolic reals) cast to bool/int: decided concolically at the shadow point
+                    if getattr(e, "is_integer", False) or e in (sp.true, sp.false):
+                        return e
+                    if isinstance(e, (sp.logic.boolalg.BooleanFunction, sp.core.relational.Relational)):
+                        t = _truth(e)
+                        if t is not None:
+                            return (sp.true if t else sp.false) if nd == np.bool_ else sp.Integer(1 if t else 0)
+                    raise symx.EngineLimit("cast of a symbolic real to an integer/boolean dtype")
+                return _ew(b2i, x)
             def b2f(e):
                 if isinstance(e, (sp.logic.boolalg.BooleanFunction, sp.core.relational.Relational, sp.logic.boolalg.BooleanAtom)):
                     t = _truth(e)
